@@ -553,9 +553,12 @@ theorem ofCode_ok {r : Nat} {s s' : St} (h : ofCode r s = .ok s') : s' = s := by
     leaves the distributor's ledger state untouched or is one operation of `Distributor.step` -/
 theorem step_projects_base {cfg : Cfg} {s s' : St} {op : Op} (hb : isCoins op = false)
     (h : step cfg s op = .ok s') :
-    s'.d = s.d ∨ ∃ dop, Distributor.step cfg.d s.d dop = .ok s'.d := by
+    s'.d = s.d ∨ ∃ dop, Distributor.step cfg.d s.d dop = .ok s'.d ∧
+      (hasNewEpoch op = false → ∀ n i, dop ≠ .newEpoch n i) := by
   cases op with
   | coins payer asset amount op => cases hb
+  | xfail code op => cases hb
+  | reenter trig caught hacc inner outer => cases hb
   | newEpoch now router acc =>
     right
     simp only [step] at h
@@ -585,7 +588,7 @@ theorem step_projects_base {cfg : Cfg} {s s' : St} {op : Op} (hb : isCoins op = 
             rw [hr] at hn; simp only at hn
             injection hn with hn; injection hn with h1 h2
             subst h1
-            refine ⟨.newEpoch now o1.inflow, ?_⟩
+            refine ⟨.newEpoch now o1.inflow, ?_, fun hh => by simp [hasNewEpoch] at hh⟩
             simp only [Distributor.step, Distributor.newEpoch, hne, hr]
   | claim u ans =>
     right
@@ -597,7 +600,7 @@ theorem step_projects_base {cfg : Cfg} {s s' : St} {op : Op} (hb : isCoins op = 
       obtain ⟨d', paid⟩ := pr
       rw [hc] at h; simp only at h
       injection h with h; subst h
-      exact ⟨.claim u (s.view u) ans, by simp only [Distributor.step, hc]⟩
+      exact ⟨.claim u (s.view u) ans, by simp only [Distributor.step, hc], fun _ n i hh => by cases hh⟩
   | bond u res view =>
     left
     simp only [step] at h
@@ -613,7 +616,7 @@ theorem step_projects_base {cfg : Cfg} {s s' : St} {op : Op} (hb : isCoins op = 
     | ok d' =>
       rw [hg] at h; simp only at h
       injection h with h; subst h
-      exact ⟨.grace sender g, by simp only [Distributor.step, hg]⟩
+      exact ⟨.grace sender g, by simp only [Distributor.step, hg], fun _ n i hh => by cases hh⟩
   | colcfg sender rate setDao active =>
     left
     simp only [step] at h
@@ -635,7 +638,7 @@ theorem step_projects_base {cfg : Cfg} {s s' : St} {op : Op} (hb : isCoins op = 
     split at h
     · left; injection h with h; subst h; rfl
     · right; injection h with h; subst h
-      exact ⟨.gift asset amount, rfl⟩
+      exact ⟨.gift asset amount, rfl, fun _ n i hh => by cases hh⟩
   | addRoute sender offer ask hops =>
     left
     simp only [step] at h
@@ -661,7 +664,7 @@ theorem step_projects_base {cfg : Cfg} {s s' : St} {op : Op} (hb : isCoins op = 
     | ok d' =>
       rw [hg] at h; simp only at h
       injection h with h; subst h
-      exact ⟨.setDist sender asset, by simp only [Distributor.step, hg]⟩
+      exact ⟨.setDist sender asset, by simp only [Distributor.step, hg], fun _ n i hh => by cases hh⟩
   | unreg sender pool =>
     left
     simp only [step] at h
@@ -750,9 +753,560 @@ theorem dreach_append (cfg : Distributor.Cfg) : ∀ (xs ys : List Distributor.Op
     | err => exact ih ys s
     | panic => exact ih ys s
 
-/-- every successful operation of the joint machine, WITH OR WITHOUT COINS ATTACHED, acts on the distributor's
-    ledger state as a (possibly empty) history of `Distributor.step` operations: attached coins are a gift to
-    the distributor (or do not touch it at all), the rest is `step_projects_base` -/
+/-! ### re-entrancy: the hooked pipeline touches the distributor only through the nested message and the final reply -/
+
+/-- `d'` is reached from `d` by a history of the distributor's own machine -/
+def DR (cfg : Cfg) (d d' : Distributor.St) : Prop := ∃ dops, d' = Distributor.reach cfg.d d dops
+
+theorem DR.refl (cfg : Cfg) (d : Distributor.St) : DR cfg d d := ⟨[], rfl⟩
+theorem DR.trans {cfg : Cfg} {a b c : Distributor.St} (h1 : DR cfg a b) (h2 : DR cfg b c) : DR cfg a c := by
+  obtain ⟨x, hx⟩ := h1
+  obtain ⟨y, hy⟩ := h2
+  exact ⟨x ++ y, by rw [hy, hx, dreach_append]⟩
+theorem DR.one {cfg : Cfg} {d d' : Distributor.St} {dop : Distributor.Op} (h : Distributor.step cfg.d d dop = .ok d') :
+    DR cfg d d' := ⟨[dop], by simp only [Distributor.reach, h]⟩
+theorem DR.gift (cfg : Cfg) (d : Distributor.St) (a x : Nat) : DR cfg d (Distributor.gift d a x) :=
+  DR.one (dop := .gift a x) rfl
+
+/-- the newest epoch has the same id and start time: `create_new_epoch` computes the same next epoch -/
+def SameCur (d d' : Distributor.St) : Prop :=
+  (Distributor.current d').id = (Distributor.current d).id ∧ (Distributor.current d').start = (Distributor.current d).start
+
+theorem SameCur.refl (d : Distributor.St) : SameCur d d := ⟨rfl, rfl⟩
+theorem SameCur.trans {a b c : Distributor.St} (h1 : SameCur a b) (h2 : SameCur b c) : SameCur a c :=
+  ⟨h2.1.trans h1.1, h2.2.trans h1.2⟩
+theorem SameCur.of_epochs {d d' : Distributor.St} (h : d'.epochs = d.epochs) : SameCur d d' := by
+  unfold SameCur Distributor.current; rw [h]; exact ⟨rfl, rfl⟩
+
+theorem nextEpoch_congr {cfg : Distributor.Cfg} {d d' : Distributor.St} (h : SameCur d d') (now : Nat) :
+    Distributor.nextEpoch cfg d' now = Distributor.nextEpoch cfg d now := by
+  unfold Distributor.nextEpoch
+  simp only
+  rw [h.1, h.2]
+
+theorem claimEpoch_idstart {e e' : Distributor.Epoch} {a : Distributor.LairAns} {acc acc' : Distributor.Ledger}
+    (h : Distributor.claimEpoch e a acc = .ok (e', acc')) : e'.id = e.id ∧ e'.start = e.start := by
+  unfold Distributor.claimEpoch at h
+  cases a with
+  | err => cases h
+  | panic => cases h
+  | share sh =>
+    simp only at h
+    cases hf : Distributor.claimFees sh e.total e.avail e.claimed acc with
+    | err => rw [hf] at h; cases h
+    | panic => rw [hf] at h; cases h
+    | ok tr =>
+      obtain ⟨av1, cl1, acc1⟩ := tr
+      rw [hf] at h; simp only at h
+      injection h with h; injection h with h1 h2
+      subst h1
+      exact ⟨rfl, rfl⟩
+
+theorem claimWalk_idstart (ans : Nat → Distributor.LairAns) (b : Nat) :
+    ∀ (n : Nat) (es : List Distributor.Epoch) (acc : Distributor.Ledger) (es' : List Distributor.Epoch) (t : Distributor.Ledger),
+      Distributor.claimWalk ans b n es acc = .ok (es', t) →
+      es'.map (fun e => (e.id, e.start)) = es.map (fun e => (e.id, e.start)) := by
+  intro n
+  induction n with
+  | zero =>
+    intro es acc es' t h
+    unfold Distributor.claimWalk at h
+    injection h with h; injection h with h1 h2
+    subst h1; rfl
+  | succ n ih =>
+    intro es acc es' t h
+    cases es with
+    | nil =>
+      unfold Distributor.claimWalk at h
+      injection h with h; injection h with h1 h2
+      subst h1; rfl
+    | cons e es =>
+      unfold Distributor.claimWalk at h
+      split at h
+      · cases hc : Distributor.claimEpoch e (ans e.id) acc with
+        | err => rw [hc] at h; cases h
+        | panic => rw [hc] at h; cases h
+        | ok pr =>
+          obtain ⟨e1, acc1⟩ := pr
+          rw [hc] at h; simp only at h
+          cases hw : Distributor.claimWalk ans b n es acc1 with
+          | err => rw [hw] at h; cases h
+          | panic => rw [hw] at h; cases h
+          | ok pr2 =>
+            obtain ⟨es1, t1⟩ := pr2
+            rw [hw] at h; simp only at h
+            injection h with h; injection h with h1 h2
+            subst h1
+            obtain ⟨i1, i2⟩ := claimEpoch_idstart hc
+            simp only [List.map_cons, i1, i2, ih es acc1 es1 t1 hw]
+      · cases hw : Distributor.claimWalk ans b n es acc with
+        | err => rw [hw] at h; cases h
+        | panic => rw [hw] at h; cases h
+        | ok pr2 =>
+          obtain ⟨es1, t1⟩ := pr2
+          rw [hw] at h; simp only at h
+          injection h with h; injection h with h1 h2
+          subst h1
+          simp only [List.map_cons, ih es acc es1 t1 hw]
+
+theorem sameCur_of_map {d d' : Distributor.St}
+    (h : d'.epochs.map (fun e => (e.id, e.start)) = d.epochs.map (fun e => (e.id, e.start))) : SameCur d d' := by
+  unfold SameCur Distributor.current
+  cases h1 : d.epochs with
+  | nil =>
+    rw [h1] at h
+    cases h2 : d'.epochs with
+    | nil => exact ⟨rfl, rfl⟩
+    | cons e es => rw [h2] at h; cases h
+  | cons e es =>
+    rw [h1] at h
+    cases h2 : d'.epochs with
+    | nil => rw [h2] at h; cases h
+    | cons e' es' =>
+      rw [h2] at h
+      simp only [List.map_cons, List.cons.injEq, Prod.mk.injEq] at h
+      exact ⟨h.1.1, h.1.2⟩
+
+/-- every operation of the distributor's machine except `NewEpoch` keeps the newest epoch's id and start -/
+theorem dstep_sameCur {cfg : Distributor.Cfg} {d d' : Distributor.St} {dop : Distributor.Op}
+    (h : Distributor.step cfg d dop = .ok d') (hn : ∀ n i, dop ≠ .newEpoch n i) : SameCur d d' := by
+  cases dop with
+  | newEpoch n i => exact absurd rfl (hn n i)
+  | claim u view ans =>
+    simp only [Distributor.step] at h
+    cases hc : Distributor.claim d u view ans with
+    | err => rw [hc] at h; cases h
+    | panic => rw [hc] at h; cases h
+    | ok pr =>
+      obtain ⟨d1, paid⟩ := pr
+      rw [hc] at h; simp only at h
+      injection h with h; subst h
+      obtain ⟨b, top, rest, es', bal', _, _, hw, _, hs'⟩ := Distributor.claim_spec hc
+      subst hs'
+      exact sameCur_of_map (claimWalk_idstart ans b d.grace d.epochs [] es' paid hw)
+  | grace sender g =>
+    simp only [Distributor.step] at h
+    obtain ⟨hs', _⟩ := Distributor.updateGrace_spec h
+    subst hs'
+    exact SameCur.of_epochs rfl
+  | gift a x =>
+    simp only [Distributor.step] at h
+    injection h with h; subst h
+    exact SameCur.of_epochs rfl
+  | setDist sender a =>
+    simp only [Distributor.step] at h
+    obtain ⟨hs', _⟩ := Distributor.setDist_spec h
+    subst hs'
+    exact SameCur.of_epochs rfl
+
+/-- a predicate on (distributor state, TMP_EPOCH, the `fired` flag) that the hostile contract's nested message preserves -/
+def FirePres (hk : Hook) (Q : Distributor.St → Option (Nat × Nat) → Nat → Prop) : Prop :=
+  ∀ h h', fire hk h = .ok h' → Q h.s.d h.tmp h.fired → Q h'.s.d h'.tmp h'.fired
+
+theorem accrueS_d (l : List (Nat × Nat × Nat)) (s : St) : (accrueS l s).d = s.d := rfl
+
+theorem collectPoolsH_pres {hk : Hook} {Q : Distributor.St → Option (Nat × Nat) → Nat → Prop} (hf : FirePres hk Q)
+    {l : Collector.Pool → Bool} {h h' : HS} (e : collectPoolsH hk l h = .ok h') (hq : Q h.s.d h.tmp h.fired) :
+    Q h'.s.d h'.tmp h'.fired := by
+  unfold collectPoolsH at e
+  split at e
+  · split at e
+    · split at e
+      · rename_i k hp _ _
+        cases hfi : fire hk { h with s := colPools (fun p => l p && Collector.keyLt (Collector.poolKey p) (Collector.poolKey hp)) h.s } with
+        | err => rw [hfi] at e; cases e
+        | panic => rw [hfi] at e; cases e
+        | ok h1 =>
+          rw [hfi] at e; simp only at e
+          injection e with e; subst e
+          have := hf _ _ hfi hq
+          exact this
+      · injection e with e; subst e; exact hq
+    · injection e with e; subst e; exact hq
+  · injection e with e; subst e; exact hq
+
+theorem collectVaultsH_pres {hk : Hook} {Q : Distributor.St → Option (Nat × Nat) → Nat → Prop} (hf : FirePres hk Q)
+    {l : Collector.Vault → Bool} {h h' : HS} (e : collectVaultsH hk l h = .ok h') (hq : Q h.s.d h.tmp h.fired) :
+    Q h'.s.d h'.tmp h'.fired := by
+  unfold collectVaultsH at e
+  split at e
+  · split at e
+    · split at e
+      · rename_i k hv _ _
+        cases hfi : fire hk { h with s := colVaults (fun v => l v && decide (v.asset < hv.asset)) h.s } with
+        | err => rw [hfi] at e; cases e
+        | panic => rw [hfi] at e; cases e
+        | ok h1 =>
+          rw [hfi] at e; simp only at e
+          injection e with e; subst e
+          have := hf _ _ hfi hq
+          exact this
+      · injection e with e; subst e; exact hq
+    · injection e with e; subst e; exact hq
+  · injection e with e; subst e; exact hq
+
+theorem collectH_pres {hk : Hook} {Q : Distributor.St → Option (Nat × Nat) → Nat → Prop} (hf : FirePres hk Q)
+    {f : Collector.FeesFor} {h h' : HS} (e : collectH hk f h = .ok h') (hq : Q h.s.d h.tmp h.fired) :
+    Q h'.s.d h'.tmp h'.fired := by
+  cases f with
+  | vaultFactory lim => exact collectVaultsH_pres hf e hq
+  | poolFactory lim => exact collectPoolsH_pres hf e hq
+  | wrongFactory => cases e
+  | onePool k =>
+    simp only [collectH] at e
+    split at e
+    · rename_i h1 hh
+      have hq1 : Q h1.s.d h1.tmp h1.fired := by
+        split at hh
+        · exact hf _ _ hh hq
+        · injection hh with hh; subst hh; exact hq
+      cases hc : Collector.collectFees h1.s.c 0 (.onePool k) with
+      | err => rw [hc] at e; cases e
+      | panic => rw [hc] at e; cases e
+      | ok c' => rw [hc] at e; simp only at e; injection e with e; subst e; exact hq1
+    · cases e
+    · cases e
+  | oneVault k =>
+    simp only [collectH] at e
+    split at e
+    · rename_i h1 hh
+      have hq1 : Q h1.s.d h1.tmp h1.fired := by
+        split at hh
+        · exact hf _ _ hh hq
+        · injection hh with hh; subst hh; exact hq
+      cases hc : Collector.collectFees h1.s.c 0 (.oneVault k) with
+      | err => rw [hc] at e; cases e
+      | panic => rw [hc] at e; cases e
+      | ok c' => rw [hc] at e; simp only at e; injection e with e; subst e; exact hq1
+    · cases e
+    · cases e
+
+theorem aggExecH_pres {hk : Hook} {Q : Distributor.St → Option (Nat × Nat) → Nat → Prop} (hf : FirePres hk Q)
+    (dist : Nat) (router : Nat → Nat → Nat → Nat) (stage : Nat) :
+    ∀ (plan : List (Nat × Nat × List (Nat × Nat))) (h h' : HS), aggExecH hk dist router stage plan h = .ok h' →
+      Q h.s.d h.tmp h.fired → Q h'.s.d h'.tmp h'.fired := by
+  intro plan
+  induction plan with
+  | nil => intro h h' e hq; unfold aggExecH at e; injection e with e; subst e; exact hq
+  | cons x rest ih =>
+    intro h h' e hq
+    obtain ⟨i, amt, hops⟩ := x
+    unfold aggExecH at e
+    split at e
+    · cases e
+    · split at e
+      · cases e
+      · split at e
+        · rename_i h2 hh
+          have hq2 : Q h2.s.d h2.tmp h2.fired := by
+            by_cases hv : swapTriggers hk.trig h.s.c.pools hops = true
+            · rw [if_pos hv] at hh
+              have := hf _ _ hh hq
+              exact this
+            · rw [if_neg hv] at hh
+              injection hh with hh; subst hh; exact hq
+          have := ih _ _ e hq2
+          exact this
+        · cases e
+        · cases e
+
+theorem aggregateH_pres {cfg : Cfg} {hk : Hook} {Q : Distributor.St → Option (Nat × Nat) → Nat → Prop} (hf : FirePres hk Q)
+    {f : Collector.FeesFor} {router : Nat → Nat → Nat → Nat} {h h' : HS}
+    (e : aggregateH cfg hk f router h = .ok h') (hq : Q h.s.d h.tmp h.fired) : Q h'.s.d h'.tmp h'.fired := by
+  unfold aggregateH at e
+  split at e
+  · cases e
+  · rename_i cands _
+    cases ha : aggExecH hk h.s.d.dist router 0 (aggPlan h.s cands) h with
+    | err => rw [ha] at e; cases e
+    | panic => rw [ha] at e; cases e
+    | ok h1 =>
+      rw [ha] at e; simp only at e
+      injection e with e; subst e
+      have := aggExecH_pres hf _ _ _ _ _ _ ha hq
+      exact this
+
+/-- the four self-calls of `ForwardFees` preserve what the nested message preserves -/
+theorem pipelineH_pres {cfg : Cfg} {hk : Hook} {Q : Distributor.St → Option (Nat × Nat) → Nat → Prop} (hf : FirePres hk Q)
+    {s : St} {now : Nat} {router : Nat → Nat → Nat → Nat} {h' : HS}
+    (e : newEpochH cfg hk s now router = .ok h') :
+    ∃ id start h4, Distributor.nextEpoch cfg.d s.d now = .ok (id, start) ∧
+      (Q s.d (some (id, start)) 0 → Q h4.s.d h4.tmp h4.fired) ∧ replyH h4 = .ok h' := by
+  unfold newEpochH at e
+  cases hn : Distributor.nextEpoch cfg.d s.d now with
+  | err => rw [hn] at e; cases e
+  | panic => rw [hn] at e; cases e
+  | ok pr =>
+    obtain ⟨id, start⟩ := pr
+    rw [hn] at e; simp only at e
+    cases h1e : collectVaultsH hk (Collector.vaultListed s.c.vaults (Collector.vaultPage Collector.FWD_LIMIT))
+        { s := s, armed := true, fired := 0, tmp := some (id, start), sws := [] } with
+    | err => rw [h1e] at e; cases e
+    | panic => rw [h1e] at e; cases e
+    | ok h1 =>
+      rw [h1e] at e; simp only at e
+      cases h2e : collectPoolsH hk (Collector.poolListed h1.s.c.pools (Collector.poolPage Collector.FWD_LIMIT)) h1 with
+      | err => rw [h2e] at e; cases e
+      | panic => rw [h2e] at e; cases e
+      | ok h2 =>
+        rw [h2e] at e; simp only at e
+        cases h3e : aggExecH hk h2.s.d.dist router 0
+            (aggPlan h2.s (Collector.vaultAssets (ccfg cfg h2.s)
+              (Collector.vaultListed h2.s.c.vaults (Collector.vaultPage Collector.FWD_LIMIT)) h2.s.c.vaults)) h2 with
+        | err => rw [h3e] at e; cases e
+        | panic => rw [h3e] at e; cases e
+        | ok h3 =>
+          rw [h3e] at e; simp only at e
+          cases h4e : aggExecH hk h3.s.d.dist router 1
+              (aggPlan h3.s (Collector.poolAssets (ccfg cfg h3.s)
+                (Collector.poolListed h3.s.c.pools (Collector.poolPage Collector.FWD_LIMIT)) h3.s.c.pools)) h3 with
+          | err => rw [h4e] at e; cases e
+          | panic => rw [h4e] at e; cases e
+          | ok h4 =>
+            rw [h4e] at e; simp only at e
+            refine ⟨id, start, h4, rfl, fun hq => ?_, e⟩
+            have q1 := collectVaultsH_pres hf h1e hq
+            have q2 := collectPoolsH_pres hf h2e q1
+            have q3 := aggExecH_pres hf _ _ _ _ _ _ h3e q2
+            exact aggExecH_pres hf _ _ _ _ _ _ h4e q3
+
+theorem replyH_spec {h h' : HS} (e : replyH h = .ok h') :
+    ∃ id start inflow, h.tmp = some (id, start) ∧ Distributor.receiveEpoch h.s.d id start inflow = .ok h'.s.d := by
+  unfold replyH at e
+  split at e
+  · cases e
+  · rename_i id start htmp
+    split at e
+    · split at e
+      · rename_i d' hr
+        injection e with e; subst e
+        exact ⟨id, start, _, htmp, hr⟩
+      · cases e
+      · cases e
+    · cases e
+
+theorem xfail_ok {cfg : Cfg} {s s' : St} {code : Nat} {op : Op} (h : step cfg s (.xfail code op) = .ok s') :
+    step cfg s op = .ok s' := by
+  simp only [step] at h
+  cases hs : step cfg s op with
+  | err => rw [hs] at h; cases h
+  | panic => rw [hs] at h; cases h
+  | ok s1 =>
+    rw [hs] at h; simp only at h
+    split at h
+    · unfold failCode at h; split at h <;> cases h
+    · exact h
+
+/-- the hooked run of an operation WITHOUT a `NewEpoch` keeps what the nested message and gifts keep -/
+theorem stepH_pres_noEpoch {cfg : Cfg} {hk : Hook} {Q : Distributor.St → Option (Nat × Nat) → Nat → Prop} (hf : FirePres hk Q)
+    (hg : ∀ d a x, Q d none 0 → Q (Distributor.gift d a x) none 0) :
+    ∀ (op : Op) (s : St) (h : HS), hasNewEpoch op = false → stepH cfg hk s op = some (.ok h) → Q s.d none 0 → Q h.s.d h.tmp h.fired := by
+  intro op
+  induction op with
+  | newEpoch now router acc => intro s h hn; simp [hasNewEpoch] at hn
+  | collect sender f => intro s h _ e hq; simp only [stepH, Option.some.injEq] at e; exact collectH_pres hf e hq
+  | aggregate sender f router acc =>
+    intro s h _ e hq; simp only [stepH, Option.some.injEq] at e; exact aggregateH_pres hf e hq
+  | coins payer a x op ih =>
+    intro s h hn e hq
+    simp only [hasNewEpoch] at hn
+    simp only [stepH] at e
+    cases hp : pay cfg s payer a x (target op) with
+    | err => rw [hp] at e; simp at e
+    | panic => rw [hp] at e; simp at e
+    | ok s1 =>
+      rw [hp] at e; simp only at e
+      refine ih s1 h hn e ?_
+      cases pay_projects hp with
+      | inl same => rw [same]; exact hq
+      | inr gift => rw [gift]; exact hg _ _ _ hq
+  | xfail code op ih =>
+    intro s h hn e hq
+    simp only [hasNewEpoch] at hn
+    simp only [stepH] at e
+    split at e
+    · rename_i h1 heq
+      split at e
+      · simp only [Option.some.injEq, Res.ok.injEq] at e; subst e; exact ih s h1 hn heq hq
+      · unfold failCode at e; split at e <;> simp at e
+    · rename_i hne
+      exact absurd e (fun e' => hne h e')
+  | reenter trig caught hacc inner outer _ _ => intro s h _ e; simp [stepH] at e
+  | claim u ans => intro s h _ e; simp [stepH] at e
+  | bond u res view => intro s h _ e; simp [stepH] at e
+  | grace sender g => intro s h _ e; simp [stepH] at e
+  | colcfg sender rate setDao active => intro s h _ e; simp [stepH] at e
+  | fwd sender => intro s h _ e; simp [stepH] at e
+  | swap res pool side fee => intro s h _ e; simp [stepH] at e
+  | loan res vault fee => intro s h _ e; simp [stepH] at e
+  | gift toCol asset amount => intro s h _ e; simp [stepH] at e
+  | addRoute sender offer ask hops => intro s h _ e; simp [stepH] at e
+  | rmRoute sender offer ask => intro s h _ e; simp [stepH] at e
+  | setDist sender asset => intro s h _ e; simp [stepH] at e
+  | unreg sender pool => intro s h _ e; simp [stepH] at e
+  | toggle sender pool on => intro s h _ e; simp [stepH] at e
+
+theorem fire_pres_of_run {hk : Hook} {Q : Distributor.St → Option (Nat × Nat) → Nat → Prop}
+    (hrun : ∀ s1 s2 t f, hk.run s1 = .ok s2 → Q s1.d t f → Q s2.d (if hk.clears = true then none else t) 1)
+    (hcaught : ∀ d t f, Q d t f → Q d t 2) :
+    FirePres hk Q := by
+  intro h h' e hq
+  unfold fire at e
+  split at e
+  · cases hr : hk.run h.s with
+    | ok s2 =>
+      rw [hr] at e; simp only at e
+      injection e with e; subst e
+      exact hrun _ _ _ _ hr hq
+    | err =>
+      rw [hr] at e; simp only at e
+      split at e
+      · injection e with e; subst e; exact hcaught _ _ _ hq
+      · cases e
+    | panic => rw [hr] at e; cases e
+  · injection e with e; subst e; exact hq
+
+/-- an operation that contains no `NewEpoch` keeps the newest epoch's id and start time — also a `reenter`
+    operation, whatever the hostile contract nests into it -/
+theorem step_sameCur {cfg : Cfg} : ∀ {op : Op} {s s' : St}, step cfg s op = .ok s' → hasNewEpoch op = false →
+    SameCur s.d s'.d := by
+  intro op
+  induction op with
+  | coins payer asset amount op ih =>
+    intro s s' h hn
+    simp only [hasNewEpoch] at hn
+    simp only [step] at h
+    cases hp : pay cfg s payer asset amount (target op) with
+    | err => rw [hp] at h; cases h
+    | panic => rw [hp] at h; cases h
+    | ok s1 =>
+      rw [hp] at h; simp only at h
+      have h1 := ih h hn
+      cases pay_projects hp with
+      | inl same => rw [same] at h1; exact h1
+      | inr gift => rw [gift] at h1; exact SameCur.trans (SameCur.of_epochs rfl) h1
+  | xfail code op ih =>
+    intro s s' h hn
+    simp only [hasNewEpoch] at hn
+    exact ih (xfail_ok h) hn
+  | reenter trig caught hacc inner outer ihi iho =>
+    intro s s' h hn
+    simp only [hasNewEpoch, Bool.or_eq_false_iff] at hn
+    simp only [step] at h
+    cases hH : stepH cfg { trig := trig, caught := caught, clears := hasNewEpoch inner, run := (fun s1 => step cfg s1 inner), hacc := hacc } s outer with
+    | none => rw [hH] at h; exact iho h hn.2
+    | some r =>
+      rw [hH] at h
+      cases r with
+      | err => cases h
+      | panic => cases h
+      | ok hh =>
+        simp only at h
+        injection h with h; subst h
+        refine stepH_pres_noEpoch (Q := fun d _ _ => SameCur s.d d) ?_ ?_ outer s hh hn.2 hH (SameCur.refl _)
+        · exact fire_pres_of_run (fun s1 s2 _ _ hr hq => SameCur.trans hq (ihi hr hn.1)) (fun _ _ _ hq => hq)
+        · intro d a x hq; exact SameCur.trans hq (SameCur.of_epochs rfl)
+  | _ =>
+    intro s s' h hn
+    cases step_projects_base rfl h with
+    | inl same => exact SameCur.of_epochs (by rw [same])
+    | inr hstep =>
+      obtain ⟨dop, hdop, hne⟩ := hstep
+      exact dstep_sameCur hdop (hne hn)
+
+/-- the hooked run of an operation acts on the distributor's ledger as a history of its own machine: whatever the
+    nested message does (a history, by hypothesis), then — for a `NewEpoch` — exactly one `NewEpoch` of the
+    distributor's machine FROM THE STATE THE NESTED MESSAGE LEFT: the epoch the outer `create_new_epoch` computed at
+    the start is the one that state would compute (a nested message that leaves `TMP_EPOCH` in place contains no
+    `NewEpoch`, so the newest epoch is the same; one that consumed it makes the reply fail) -/
+theorem stepH_DR {cfg : Cfg} {hk : Hook}
+    (hrunDR : ∀ s1 s2, hk.run s1 = .ok s2 → DR cfg s1.d s2.d)
+    (hrunSC : hk.clears = false → ∀ s1 s2, hk.run s1 = .ok s2 → SameCur s1.d s2.d) :
+    ∀ (op : Op) (s : St) (h : HS), stepH cfg hk s op = some (.ok h) → DR cfg s.d h.s.d := by
+  intro op
+  induction op with
+  | newEpoch now router acc =>
+    intro s h e
+    simp only [stepH, Option.some.injEq] at e
+    cases hn0 : Distributor.nextEpoch cfg.d s.d now with
+    | err => unfold newEpochH at e; rw [hn0] at e; cases e
+    | panic => unfold newEpochH at e; rw [hn0] at e; cases e
+    | ok pr =>
+      obtain ⟨id0, start0⟩ := pr
+      have hfp : FirePres hk (fun d t _ => DR cfg s.d d ∧ (t = none ∨ (t = some (id0, start0) ∧ SameCur s.d d))) := by
+        refine fire_pres_of_run (fun s1 s2 t _ hr hq => ⟨DR.trans hq.1 (hrunDR _ _ hr), ?_⟩) (fun _ _ _ hq => hq)
+        by_cases hc : hk.clears = true
+        · rw [if_pos hc]; exact Or.inl rfl
+        · rw [if_neg hc]
+          cases hq.2 with
+          | inl hnone => exact Or.inl hnone
+          | inr hsome => exact Or.inr ⟨hsome.1, SameCur.trans hsome.2 (hrunSC (by simpa using hc) _ _ hr)⟩
+      obtain ⟨id, start, h4, hn, hq, hr⟩ := pipelineH_pres hfp e
+      rw [hn0] at hn
+      injection hn with hn; injection hn with e1 e2
+      subst e1; subst e2
+      obtain ⟨q1, q2⟩ := hq ⟨DR.refl _ _, Or.inr ⟨rfl, SameCur.refl _⟩⟩
+      obtain ⟨id', start', inflow, htmp, hrec⟩ := replyH_spec hr
+      cases q2 with
+      | inl hnone => rw [hnone] at htmp; cases htmp
+      | inr hsome =>
+        obtain ⟨ht, hsc⟩ := hsome
+        rw [ht] at htmp
+        injection htmp with htmp; injection htmp with e1 e2
+        subst e1; subst e2
+        refine DR.trans q1 (DR.one (dop := .newEpoch now inflow) ?_)
+        simp only [Distributor.step, Distributor.newEpoch, nextEpoch_congr hsc now, hn0, hrec]
+  | collect sender f =>
+    intro s h e
+    simp only [stepH, Option.some.injEq] at e
+    exact collectH_pres (Q := fun d _ _ => DR cfg s.d d)
+      (fire_pres_of_run (fun s1 s2 _ _ hr hq => DR.trans hq (hrunDR _ _ hr)) (fun _ _ _ hq => hq)) e (DR.refl _ _)
+  | aggregate sender f router acc =>
+    intro s h e
+    simp only [stepH, Option.some.injEq] at e
+    exact aggregateH_pres (Q := fun d _ _ => DR cfg s.d d)
+      (fire_pres_of_run (fun s1 s2 _ _ hr hq => DR.trans hq (hrunDR _ _ hr)) (fun _ _ _ hq => hq)) e (DR.refl _ _)
+  | coins payer a x op ih =>
+    intro s h e
+    simp only [stepH] at e
+    cases hp : pay cfg s payer a x (target op) with
+    | err => rw [hp] at e; simp at e
+    | panic => rw [hp] at e; simp at e
+    | ok s1 =>
+      rw [hp] at e; simp only at e
+      have h1 := ih s1 h e
+      cases pay_projects hp with
+      | inl same => rw [same] at h1; exact h1
+      | inr gift => rw [gift] at h1; exact DR.trans (DR.gift _ _ _ _) h1
+  | xfail code op ih =>
+    intro s h e
+    simp only [stepH] at e
+    split at e
+    · rename_i h1 heq
+      split at e
+      · simp only [Option.some.injEq, Res.ok.injEq] at e; subst e; exact ih s h1 heq
+      · unfold failCode at e; split at e <;> simp at e
+    · rename_i hne
+      exact absurd e (fun e' => hne h e')
+  | reenter trig caught hacc inner outer _ _ => intro s h e; simp [stepH] at e
+  | claim u ans => intro s h e; simp [stepH] at e
+  | bond u res view => intro s h e; simp [stepH] at e
+  | grace sender g => intro s h e; simp [stepH] at e
+  | colcfg sender rate setDao active => intro s h e; simp [stepH] at e
+  | fwd sender => intro s h e; simp [stepH] at e
+  | swap res pool side fee => intro s h e; simp [stepH] at e
+  | loan res vault fee => intro s h e; simp [stepH] at e
+  | gift toCol asset amount => intro s h e; simp [stepH] at e
+  | addRoute sender offer ask hops => intro s h e; simp [stepH] at e
+  | rmRoute sender offer ask => intro s h e; simp [stepH] at e
+  | setDist sender asset => intro s h e; simp [stepH] at e
+  | unreg sender pool => intro s h e; simp [stepH] at e
+  | toggle sender pool on => intro s h e; simp [stepH] at e
+
+/-- every successful operation of the joint machine — WITH OR WITHOUT COINS ATTACHED, with a swap failure recorded, with
+    a hostile registered contract nesting ANY operation into it (`reenter`) — acts on the distributor's ledger state
+    as a (possibly empty) history of `Distributor.step` operations: attached coins are a gift to the distributor (or
+    do not touch it at all), a nested message is itself such a history, the rest is `step_projects_base` -/
 theorem step_projects {cfg : Cfg} : ∀ {op : Op} {s s' : St}, step cfg s op = .ok s' →
     ∃ dops, s'.d = Distributor.reach cfg.d s.d dops := by
   intro op
@@ -769,12 +1323,27 @@ theorem step_projects {cfg : Cfg} : ∀ {op : Op} {s s' : St}, step cfg s op = .
       cases pay_projects hp with
       | inl same => exact ⟨dops, by rw [hd, same]⟩
       | inr gift => exact ⟨.gift asset amount :: dops, by rw [hd, gift]; rfl⟩
+  | xfail code op ih => intro s s' h; exact ih (xfail_ok h)
+  | reenter trig caught hacc inner outer ihi iho =>
+    intro s s' h
+    simp only [step] at h
+    cases hH : stepH cfg { trig := trig, caught := caught, clears := hasNewEpoch inner, run := (fun s1 => step cfg s1 inner), hacc := hacc } s outer with
+    | none => rw [hH] at h; exact iho h
+    | some r =>
+      rw [hH] at h
+      cases r with
+      | err => cases h
+      | panic => cases h
+      | ok hh =>
+        simp only at h
+        injection h with h; subst h
+        exact stepH_DR (fun s1 s2 hr => ihi hr) (fun hc s1 s2 hr => step_sameCur hr hc) outer s hh hH
   | _ =>
     intro s s' h
     cases step_projects_base rfl h with
     | inl same => exact ⟨[], by rw [same]; rfl⟩
     | inr hstep =>
-      obtain ⟨dop, hdop⟩ := hstep
+      obtain ⟨dop, hdop, _⟩ := hstep
       exact ⟨[dop], by simp only [Distributor.reach, hdop]⟩
 
 /-- the distributor's reply from a state that was first given `x` of asset `a`: the same epochs, every
